@@ -188,17 +188,18 @@ pub fn check_c08(prog: &NetProgram, res: &NetResult, info: &mut RunInfo) {
     for r in &res.trace {
         if let Ev::Offer { uid, gate, len, delay_ns, .. } = &r.ev {
             let from: G = (r.m as usize, *gate as usize);
-            // the graph in force when the message enters the chain
+            // the graph in force when the message enters the chain: a delayed send leaves its gate at send time + delay,
+            // through whatever has been connected to the gate by then
             let enter = r.t + delay_ns;
-            let graph = full_graphs.iter().rev().find(|(at, _)| *at < r.t).map_or(&graph, |g| &g.1);
+            let graph = full_graphs.iter().rev().find(|(at, _)| *at < enter).map_or(&graph, |g| &g.1);
             if !late.is_empty() {
                 let touches_late = late_gates.contains(&from) || last_graph.walk(from).iter().any(|h| late_gates.contains(&h.0));
-                if touches_late && (late.iter().any(|l| l.0 >= r.t) || *delay_ns != 0) {
+                if touches_late && late.iter().any(|l| l.0 >= enter) {
                     return;
                 }
                 info.probe_n("offer_over_a_link_connected_at_run_time", u64::from(touches_late));
+                info.probe_n("delayed_send_issued_before_its_gate_was_connected", u64::from(touches_late && late.iter().any(|l| l.0 >= r.t)));
             }
-            let _ = enter;
             let hops = graph.walk(from);
             let mut t = r.t + delay_ns;
             let mut j = 0u64;
